@@ -497,6 +497,8 @@ def plan(tier: str, seed: int, scale: float = 1.0) -> List[Dict[str, Any]]:
     nrand = int((2000 if tier == "quick" else 14000) * scale)
     specs += [{"kind": "random", "seed": seed * 1000 + i, "n": nrand} for i in range(4 if tier == "quick" else 16)]
     specs.append({"kind": "yaml", "seed": seed})
+    nf = int((12000 if tier == "quick" else 250000) * scale)
+    specs += [{"kind": "fuzz", "seed": seed * 1000 + 500 + i, "n": nf} for i in range(2 if tier == "quick" else 12)]
     return specs
 
 
@@ -518,6 +520,10 @@ def run_shard(spec: Dict[str, Any]) -> Dict[str, Any]:
             check_source(src, "random", ev, ExpressionError, audit, col)
     elif spec["kind"] == "yaml":
         _yaml_path(col, audit)
+    elif spec["kind"] == "fuzz":
+        from .fuzz_expr import run_child
+
+        return run_child("c11", spec)
     return col.result()
 
 
@@ -586,4 +592,4 @@ def shrink_candidates(case: Dict[str, Any]) -> Iterator[Dict[str, Any]]:
 
 
 def label_requirements(tier: str) -> Dict[str, Any]:
-    return {"evaluated": 2000, "history_recompile": 10000, "verdict:unsafe": 0.2, "verdict:safe": 0.01, "d3": 1000, "esc2": 1000}
+    return {"fuzz": 15000, "evaluated": 2000, "history_recompile": 10000, "verdict:unsafe": 0.2, "verdict:safe": 0.01, "d3": 1000, "esc2": 1000}
